@@ -164,14 +164,16 @@ impl Ctx {
                         }
                         u
                     }
-                    10 => or(ones(244, 252), U([rnd.0[0], 0, 0, 0, 0, 0, 0, 0])),
+                    // low limb with its top window set (a NAF carry is certain), then two all-zero limbs
+                    10 => or(ones(244, 252), U([rnd.0[0] | 0xF800_0000_0000_0000, 0, 0, 0, 0, 0, 0, 0])),
                     11 => U::ONE,
                     12 => U::from_u64(16),
                     13 => U::from_u64(31),
                     14 => or(ones(63, 65), ones(127, 129)),
                     15 => ones(60, 64),
                     16 => or(ones(0, 1), ones(251, 252)),
-                    _ => rnd,
+                    // 2^64 - 1: the carry out of the low limb lands on an all-zero limb
+                    _ => ones(0, 64),
                 };
                 self.m.reduce(&raw)
             }
